@@ -65,6 +65,25 @@ def rbytes(r, n):
     return [r.randrange(256) for _ in range(n)]
 
 
+# attribute names: proper prefixes of one another on purpose (a lookup by name must compare whole names), set in
+# either order
+ATTR_NAMES = ["units", "units_long", "valid_range", "valid_range_ext", "a", "ab", "abc", "long_name", "title"]
+
+
+def attr_names(r, k):
+    """k distinct names, biased towards pairs where one is a proper prefix of another that comes EARLIER"""
+    pairs = [("units_long", "units"), ("valid_range_ext", "valid_range"), ("abc", "ab"), ("ab", "a")]
+    out = []
+    if k >= 2 and r.random() < 0.7:
+        lo, sh = r.choice(pairs)
+        out = [lo, sh] if r.random() < 0.7 else [sh, lo]
+    while len(out) < k:
+        n = r.choice(ATTR_NAMES)
+        if n not in out:
+            out.append(n)
+    return out[:k]
+
+
 def gen_coords(nch):
     out = [[]]
     for n in nch:
@@ -100,7 +119,8 @@ class Gen:
     def h_session(self, F, snap_to=None, knobs=None, edit=False):
         r = self.r
         L = self.lines
-        L.append("hopen %d %d %d" % (F, r.choice([4, 5, 16]), r.choice([0, 1, 1])))
+        ndds = r.choice([4, 4, 5, 16])
+        L.append("hopen %d %d %d" % (F, ndds, r.choice([0, 1, 1])))
         nops = r.randrange(4, 15)
         vs_slots = list(range(self.vs))
         for _ in range(nops):
@@ -219,8 +239,9 @@ class Gen:
                     s = r.choice(cands)
                     nf = self.vsinfo[s][0]
                     fi = r.choice([-1] + list(range(nf)))
-                    cnt = r.choice([1, 2, 4])
-                    L.append("vsattr %d %d %d %s 21 %d %s" % (F, s, fi, hx("a%d" % r.randrange(4)), cnt, hexs(rbytes(r, cnt))))
+                    for an in attr_names(r, r.choice([1, 2, 3])):
+                        cnt = r.choice([1, 2, 4])
+                        L.append("vsattr %d %d %d %s 21 %d %s" % (F, s, fi, hx(an), cnt, hexs(rbytes(r, cnt))))
             elif k < 0.96:
                 if self.vg < 14:
                     nm = r.choice([0, 0, 1, 2, 3, 6])
@@ -252,15 +273,21 @@ class Gen:
                     cls = r.choice(["", "c", "gclass", "C" * 65])
                     L.append("vg %d %d %s %s %d %s" % (F, self.vg, hx(name), hx(cls), len(ms), " ".join(ms)))
                     self.vg += 1
-                    if r.random() < 0.3:
-                        cnt = r.choice([1, 3])
-                        L.append("vgattr %d %d %s 21 %d %s" % (F, self.vg - 1, hx("ga"), cnt, hexs(rbytes(r, cnt))))
+                    if r.random() < 0.4:
+                        for an in attr_names(r, r.choice([1, 2, 3])):
+                            cnt = r.choice([1, 3])
+                            L.append("vgattr %d %d %s 21 %d %s" % (F, self.vg - 1, hx(an), cnt, hexs(rbytes(r, cnt))))
             else:
                 ty = r.choice([0, 1, 2, 3])
                 if ty >= 2 and not self.any:
                     ty = 0
                 t, rf = r.choice(self.any) if self.any else (0, 0)
                 L.append("an %d %d %d %d %s" % (F, ty, t, rf, hexs(rbytes(r, r.choice([1, 5, 30])))))
+        if r.random() < 0.35:
+            # descriptors without data at the end of the session: with few slots per DD block one of them opens a new
+            # block, which then is the last thing in the file when it is re-opened for writing
+            for _ in range(r.choice([ndds, ndds + 1, 2]) if ndds <= 5 else 2):
+                L.append("defonly %d 1104 %d" % (F, self.newref(1104)))
         if snap_to is not None:
             L.append("snap %d %d" % (F, snap_to))
             if r.random() < 0.5:
@@ -378,8 +405,10 @@ class Gen:
         r = self.r
         L = self.lines
         L.append("sdstart %d" % F)
-        if r.random() < 0.3:
-            L.append("sdattr %s 21 2 %s" % (hx("fileatt%d" % r.randrange(3)), hexs(rbytes(r, 2))))
+        if r.random() < 0.4:
+            for an in attr_names(r, r.choice([1, 2, 3])):
+                cnt = r.choice([1, 2, 5])
+                L.append("sdattr %s 21 %d %s" % (hx(an), cnt, hexs(rbytes(r, cnt))))
         # append records to data sets with an unlimited dimension made in an earlier session
         for idx, (nt, rank, dims) in sorted(self.unlim.items()):
             if r.random() < 0.6:
@@ -440,13 +469,17 @@ class Gen:
                                                        " ".join(map(str, ed2)), hexs(rbytes(r, n))))
                         recs += ed2[0]
                     self.unlim[my_index] = (nt, rank, [recs] + dims[1:])
-            if r.random() < 0.4:
-                L.append("sdattr %s 21 3 %s" % (hx("att%d" % r.randrange(3)), hexs(rbytes(r, 3))))
+            if r.random() < 0.5:
+                for an in attr_names(r, r.choice([1, 2, 3])):
+                    cnt = r.choice([1, 3, 4])
+                    L.append("sdattr %s 21 %d %s" % (hx(an), cnt, hexs(rbytes(r, cnt))))
             if r.random() < 0.25 and layout != "nodata":
                 # a named dimension with an attribute: stored with the dimension's coordinate variable
                 j = r.randrange(rank)
                 L.append("sddimname %d %s" % (j, hx("dim%d_%d" % (my_index, j))))
-                L.append("sddimattr %d %s 21 2 %s" % (j, hx("dimatt"), hexs(rbytes(r, 2))))
+                for an in attr_names(r, r.choice([1, 2])):
+                    cnt = r.choice([1, 2, 3])
+                    L.append("sddimattr %d %s 21 %d %s" % (j, hx(an), cnt, hexs(rbytes(r, cnt))))
                 self.nsds += 1          # the coordinate variable takes an index of its own
             L.append("sdendaccess")
         L.append("sdend")
@@ -481,7 +514,11 @@ class Gen:
         r = self.r
         L = self.lines
         L.append("grstart %d" % F)
-        for i in range(r.choice([1, 1, 2])):
+        if r.random() < 0.5:
+            for an in attr_names(r, r.choice([1, 2, 3])):
+                cnt = r.choice([1, 2, 4])
+                L.append("grattr 0 %s 21 %d %s" % (hx(an), cnt, hexs(rbytes(r, cnt))))
+        for i in range(r.choice([1, 1, 2, 3])):
             ncomp = r.choice([1, 1, 3])
             nt = r.choice([21, 21, 23])
             w, h = r.choice([1, 2, 3, 5, 8]), r.choice([1, 2, 4, 6])
@@ -495,15 +532,23 @@ class Gen:
                 L.append("grchunk %d %d %d %d" % (coder, 6 if coder == 4 else 0, r.randrange(1, h + 1), r.randrange(1, w + 1)))
             if lay != "nodata":
                 L.append("grwrite %s" % hexs(rbytes(r, ncomp * NT[nt] * w * h)))
+                if r.random() < 0.5:
+                    L.append("grlut %d" % r.randrange(256))
+            if r.random() < 0.4:
+                for an in attr_names(r, r.choice([1, 2, 3])):
+                    cnt = r.choice([1, 3])
+                    L.append("grattr 1 %s 21 %d %s" % (hx(an), cnt, hexs(rbytes(r, cnt))))
             L.append("grendaccess")
         L.append("grend")
+        for _ in range(r.choice([0, 0, 1, 2])):
+            L.append("dfpal %d %d" % (F, r.randrange(80)))
 
 
 def gen_history(r, name, knobs=None):
     g = Gen(r, name)
-    sessions = r.choice([["h"], ["h", "h"], ["h", "he"], ["h", "he", "he"], ["lbt", "he"], ["lbt"], ["lbt", "he", "he"],
+    sessions = r.choice([["h"], ["h", "h"], ["h", "he"], ["h", "h", "he"], ["h", "sd"], ["h", "gr"], ["h", "he", "he"], ["lbt", "he"], ["lbt"], ["lbt", "he", "he"],
                          ["sd"], ["gr"], ["h", "sd"], ["sd", "h"], ["h", "gr"], ["gr", "sd"], ["sd", "sd"], ["sd2", "sd"],
-                         ["sd2"], ["sd2", "sd", "sd"], ["vgs", "he"], ["vgs", "he", "he"], ["vgs", "he"], ["h", "sd", "gr"], ["sd", "gr", "he"], ["dfsd"], ["dfsd", "h"],
+                         ["sd2"], ["sd2", "sd", "sd"], ["vgs", "he"], ["vgs", "he", "he"], ["vgs", "he"], ["h", "sd", "gr"], ["sd", "gr", "he"], ["gr"], ["gr", "gr"], ["gr", "h"], ["dfsd"], ["dfsd", "h"],
                          ["h", "dfsd"], ["dfsd"]])
     snapped = False
     for s in sessions:
@@ -624,7 +669,7 @@ def mem_owner(h):
         elif t[0] == "snap":
             grp += 1
             owner[t[2]] = grp
-        elif t[0] in ("sdstart", "grstart", "dfsd", "sdann"):
+        elif t[0] in ("sdstart", "grstart", "dfsd", "sdann", "dfpal"):
             owner.pop(t[1], None)
         elif t[0] == "hopen":
             owner.pop(t[1], None)
@@ -718,6 +763,20 @@ def compare(h, R, per_s):
         for i, x in enumerate(RD):
             stats["DI"] += 1
             y = SD_[i] if i < len(SD_) else "DI <missing>"
+            ux, uy = x.split(), y.split()
+            if len(ux) > 1 and ux[1] in ("ANNF", "ANNS") and "=" in ux and "=" in uy and ux[:7] == uy[:7]:
+                # annotations: h4read lists every location; the library must return the right number of them, each
+                # one a location h4read found, none twice
+                ix, iy = ux.index("="), uy.index("=")
+                rx, ry = ux[ix + 2:], uy[iy + 2:]
+                okk = ux[ix + 1] == uy[iy + 1] and (ux[4] == "N" or (len(rx) == int(ux[ix + 1]) and len(set(rx)) == len(rx) and all(e in ry for e in rx)))
+                if not okk:
+                    bad.append(("DI", "annotation locations: library '%s', the bytes say '%s'" % (x[:160], y[:160])))
+                continue
+            if len(uy) > 8 and "multi" in uy and ux[:7] == uy[:7] and ux[7:] == ["1", uy[-1]]:
+                # attribute data in more than one block, reported as its first block with return value 1
+                bad.append(("attmulti", "attribute stored in %s blocks, query reports only the first: '%s'" % (uy[8], x[:120])))
+                continue
             if x != y:
                 bad.append(("DI", "raw-location query: library '%s', the bytes say '%s'" % (x[:160], y[:160])))
         for pfx in ("SDDATA", "GRDATA"):
@@ -739,6 +798,16 @@ def compare(h, R, per_s):
                 stats["RE"] = stats.get("RE", 0) + 1
                 if not x.endswith(" ok"):
                     bad.append(("model", "encoder model differs from the library's bytes: " + x))
+        for x in S:
+            if x.startswith("AM "):
+                bad.append(("model", "attribute lookup: model differs from the specification: " + x))
+        PM = {" ".join(x.split()[1:6]): x.split()[6:] for x in S if x.startswith("PM ")}
+        for x in RD:
+            u = x.split()
+            if u[1] == "PAL" and " ".join(u[1:6]) in PM:
+                stats["PM"] = stats.get("PM", 0) + 1
+                if u[6:] != PM[" ".join(u[1:6])]:
+                    bad.append(("model", "GRgetpalinfo model: library '%s', model '%s'" % (" ".join(u[6:])[:120], " ".join(PM[" ".join(u[1:6])])[:120])))
         DM = {tuple(x.split()[1:4]): x.split()[4:] for x in S if x.startswith("DM ")}
         for x in RD:
             u = x.split()
@@ -757,7 +826,7 @@ def compare(h, R, per_s):
             elif ht[0] == "del" or (ht[0] == "vgdel" and ht[4] == "1"):
                 purposely = True
         for k, v in sorted(keyed(S, "VG", 1).items()):
-            ms = [x for x in v if x.startswith("m=")][0][2:]
+            ms = ([x for x in v if x.startswith("m=")] or ["m=-"])[0][2:]
             for m in ([] if ms == "-" else ms.split(",")):
                 t_, r_ = m.split(":")
                 if (t_, r_) not in SE and (t_, r_) in made and not purposely:
@@ -824,7 +893,11 @@ def compare(h, R, per_s):
 
 def classify(h, bad):
     """signature of a failing history for known-finding matching (computed from the failing input and the failure).
-    No finding of C02 is left unrepaired (known_findings.d/C02.json lists only fixed defects), so nothing matches."""
+    'attdatainfo-multiblock' = every disagreement of the history is a single-location attribute query
+    (SDgetattdatainfo / GRgetattdatainfo / Vgetattdatainfo / VSgetattdatainfo) on an attribute whose data the
+    independent reader finds in more than one block, answered with the first block and return value 1."""
+    if bad and all(b[0] == "attmulti" for b in bad):
+        return "attdatainfo-multiblock"
     return None
 
 
